@@ -807,6 +807,75 @@ def nontrivial(line):
     return f[1] == "tables" or (len(f) > 3 and f[3] != "-")
 
 
+# ------------------------------------------------------------------------------------------------ regions of the known findings
+def _f(line):
+    f = line.split(SEP)
+    return f[1], (unwire(f[3]) if len(f) > 3 else ""), f[4:]
+
+
+def _neg_step(line):
+    op, s, a = _f(line)
+    return op in ("getslice", "delslice", "setslice", "setsliceint") and a[2] != "None" and int(a[2]) < 0
+
+
+def _inverted_assign(line):
+    op, s, a = _f(line)
+    if op not in ("setslice", "setsliceint") or a[2] not in ("None", "1"):
+        return False
+    st, e, _ = slice(_opt(a[0]), _opt(a[1]), 1).indices(len(s))
+    return e < st
+
+
+def _aligned_find(line):
+    op, s, a = _f(line)
+    return op in ("find", "rfind") and a[3] == "1"
+
+
+def _count_aligned(line):
+    op, s, a = _f(line)
+    return op == "findall" and a[4] == "1" and a[3] != "None"
+
+
+def _set_range(line):
+    op, s, a = _f(line)
+    return (op == "set" and a[1].startswith("r")) or (op == "setsliceint" and a[2] not in ("None", "1", "-1"))
+
+
+def _multi_chunk(line):
+    op, s, a = _f(line)
+    if op not in ("findall", "replace"):
+        return False
+    t = unwire(a[0])
+    st, e = (a[1], a[2]) if op == "findall" else (a[2], a[3])
+    try:
+        x, y = _validate(len(s), _opt(st), _opt(e))
+    except RefErr:
+        return False
+    return y - x > max(8192, 80 * len(t)) + len(t)
+
+
+REGIONS = {"negStep": _neg_step, "invertedAssign": _inverted_assign, "alignedFind": _aligned_find,
+           "countAligned": _count_aligned, "setRange": _set_range, "multiChunk": _multi_chunk}
+
+
+def in_known_region(line):
+    f = line.split(SEP)
+    if f[1] in ("tables", "seq", "value", "pack"):
+        return False
+    return any(p(line) for p in REGIONS.values())
+
+
+def compare(out, model_out, line):
+    """IMPL ≍ MODEL.  Inside a region where the model transcribes a known deviation, an implementation that has
+    been repaired (and now gives what the property demands) is not a disagreement either."""
+    if out == model_out:
+        return True
+    if in_known_region(line):
+        f = line.split(SEP)
+        return out == expected(f[1], unwire(f[3]), f[4:], True)
+    return False
+
+
 # ------------------------------------------------------------------------------------------------ generators
 def _pat(n, k=0):
     base = "1101000101100111010"[k:] + "1101000101100111010"[:k]
@@ -845,7 +914,7 @@ def _subpatterns(s, rng, maxlen=4):
 
 def gen_slices(rng, tier):
     big = tier != "quick"
-    full = 7 if big else 5
+    full = 7 if big else 4
     top = 12
     for n in range(0, top + 1):
         conts = [_pat(n)] if n else [""]
@@ -862,7 +931,7 @@ def gen_slices(rng, tier):
             yield L("getslice", _acls(rng), s, a, b, c)
             yield L("delslice", _mcls(rng), s, a, b, c)
             rl = len(range(*slice(a, b, c).indices(n))) if c != 0 else 0
-            vl = {0, 1, rl, rl + 1, 3} if c in (None, 1) else {rl, 0 if rl else 1}
+            vl = ({0, 1, rl, rl + 1, 3} if big else {0, rl, rl + 1}) if c in (None, 1) else {rl, 0 if rl else 1}
             for k in sorted(vl):
                 if keep < 1.0 and k not in (rl, 1) and rng.random() < 0.6:
                     continue
@@ -920,7 +989,7 @@ def gen_search(rng, tier):
             pats = _subpatterns(s, rng) + ([s[:8], s[1:9]] if n >= 9 else [])
             pairs = list(itertools.product(vals, vals))
             for t in pats:
-                keep = 1.0 if (n <= 8 and len(t) <= 2) else (0.4 if big else 0.12)
+                keep = 1.0 if (n <= (8 if big else 5) and len(t) <= 2) else (0.4 if big else 0.06)
                 for (a, b) in pairs:
                     if keep < 1.0 and rng.random() > keep:
                         continue
@@ -939,18 +1008,18 @@ def gen_search(rng, tier):
                         new = rng.choice(["", "1", "00", t, t + "1", "0110"])
                         yield L("replace", _mcls(rng), s, wire(t), wire(new), a, b, rng.choice([None, None, 0, 1, 2]), ba)
             for (a, b) in itertools.product(vals, vals):
-                if rng.random() < (0.5 if n <= 8 else 0.15):
+                if rng.random() < (0.5 if n <= 8 else 0.15) * (1 if big else 0.3):
                     yield L("startswith", _acls(rng), s, "-", a, b)
                     yield L("endswith", _acls(rng), s, "-", a, b)
                     yield L("find", _acls(rng), s, "-", a, b, 0)
                     yield L("rfind", _acls(rng), s, "-", a, b, 0)
                     yield L("replace", _mcls(rng), s, "-", "1", a, b, rng.choice([None, 0, 1]), 0)
                 for k in ([1, 2, 3, n, n + 1, 0, -1] if n <= 8 else [1, 3, 5, 8]):
-                    if rng.random() < (0.5 if n <= 8 else 0.2):
+                    if rng.random() < (0.5 if n <= 8 else 0.2) * (1 if big else 0.2):
                         yield L("cut", _acls(rng), s, k, a, b, rng.choice([None, None, 0, 1, 2, -1]))
-                if rng.random() < (0.6 if n <= 8 else 0.2):
+                if rng.random() < (0.6 if n <= 8 else 0.2) * (1 if big else 0.5):
                     yield L("reverse", _mcls(rng), s, a, b)
-                if rng.random() < 0.3:
+                if rng.random() < (0.3 if big else 0.15):
                     na, nb = (a if a is None or a >= 0 else a + n), (b if b is None or b >= 0 else b + n)
                     sa, sb = (0 if na is None else na), (n if nb is None else nb)
                     k = rng.choice([0, 1, 2, 3, n, n + 1, -1])
@@ -1126,44 +1195,54 @@ SEQ_VOCAB = ["ins", "ovw", "app", "pre", "del", "set", "inv", "rol", "ror", "rev
 
 
 def gen_seq(rng, tier):
+    """histories on one object with the option toggled between the calls; every step stays outside the regions
+    of the known findings (the state is tracked with the plain-Python reference)"""
     big = tier != "quick"
     for _ in range(6000 if big else 1500):
         n = rng.randint(0, 12)
         s = rand_bits(rng, n)
-        steps = []
-        cur = n                                            # length estimate, to keep most steps valid
+        cur, steps = s, []
         for _j in range(rng.randint(1, 6)):
             m = rng.choice("ML")
             op = rng.choice(SEQ_VOCAB)
             v = rand_bits(rng, rng.randint(0, 3))
-            p = lambda lo=0: rng.randint(lo, max(cur, lo)) if rng.random() < 0.85 else rng.randint(-cur - 1, cur + 1)
+            k = len(cur)
+            p = lambda: rng.randint(0, k) if rng.random() < 0.85 else rng.randint(-k - 1, k + 1)
             if op in ("ins", "ovw"):
-                st = f"{m}:{op}:{wire(v)}:{p()}"; cur += len(v)
+                a = [wire(v), str(p())]
             elif op in ("app", "pre"):
-                st = f"{m}:{op}:{wire(v)}"; cur += len(v)
+                a = [wire(v)]
             elif op == "del":
-                a, b = sorted([p(), p()])
-                st = f"{m}:del:{a}:{b}:{rng.choice(['None', '1', '2'])}"; cur = max(0, cur - max(0, b - a))
+                a = [sv(p()), sv(p()), rng.choice(["None", "1", "2"])]
             elif op == "set":
-                a, b = sorted([p(), p()])
-                st = f"{m}:set:{a}:{b}:None:{wire(v)}"; cur = max(0, cur - max(0, b - a) + len(v))
-            elif op in ("inv", "idx"):
-                st = f"{m}:{op}:{p()}"
-            elif op in ("rol", "ror"):
-                a, b = sorted([p(), p()])
-                if a == b:
-                    a, b = "None", "None"
-                    if cur == 0:
+                a = [sv(p()), sv(p()), "None", wire(v)]
+                st, e, _ = slice(_opt(a[0]), _opt(a[1]), 1).indices(k)
+                if e < st:
+                    a[0], a[1] = a[1], a[0]
+                    st, e, _ = slice(_opt(a[0]), _opt(a[1]), 1).indices(k)
+                    if e < st:
                         continue
-                st = f"{m}:{op}:{rng.randint(0, 5)}:{a}:{b}"
+            elif op in ("inv", "idx"):
+                a = [str(p())]
+            elif op in ("rol", "ror"):
+                x, y = sorted([rng.randint(0, k), rng.randint(0, k)])
+                if x == y:
+                    if k == 0:
+                        continue
+                    x, y = None, None
+                a = [str(rng.randint(0, 5)), sv(x), sv(y)]
             elif op == "rev":
-                a, b = sorted([p(), p()])
-                st = f"{m}:rev:{a}:{b}"
+                a = [sv(p()), sv(p())]
             elif op == "get":
-                st = f"{m}:get:{sv(rng.choice([None, p()]))}:{sv(rng.choice([None, p()]))}:{rng.choice(['None', '1', '2', '3'])}"
+                a = [sv(rng.choice([None, p()])), sv(rng.choice([None, p()])), rng.choice(["None", "1", "2", "3"])]
             else:
-                st = f"{m}:find:{wire(rand_bits(rng, rng.randint(1, 3)))}"
-            steps.append(st)
+                a = [wire(rand_bits(rng, rng.randint(1, 3)))]
+            steps.append(":".join([m, op] + a))
+            full = SEQ_OPS[op]
+            ra = ["i" + a[0]] if op == "inv" else ([a[0], "None", "None", "0"] if op == "find" else a)
+            e = expected(full, cur, ra, m == "L")
+            if e != "err" and op not in ("get", "idx", "find"):
+                cur = unwire(e[3:])
         if steps:
             yield L("seq", _mcls(rng), s, " ; ".join(steps))
 
